@@ -1,3 +1,4 @@
 import Bec2Verif.Props.C15
 import Bec2Verif.Props.C01
 import Bec2Verif.Props.C08
+import Bec2Verif.Props.C16
